@@ -15,7 +15,7 @@ X: the REAL ExponentiatedGradient.fit driven by an exact cost-sensitive learner 
    error/viol/gap are only demanded when the constrained problem is feasible (LP status optimal); tolerance 1e-7 absolute.
 Scope: configurations = 5 parity moments x 5 bound settings (default .01, difference_bound .1/.02, ratio_bound .8 + slack .05, ratio_bound .6 slack 0)
    x eps {.02,.1,.3} x max_iter {2,6,20,50} x run_linprog_step x eta0 {.5,2} (all 1200 combinations, each on 2 (max_iter<=6) / 1 datasets in the quick tier, 16 / 8 in the thorough
-   tier, drawn from a seeded pool, 80% preferring datasets on which the constraint binds), nu in {None, .2, .02, 1e-4}; datasets: k in 2..3 (quick) / 2..5 (thorough) feature values, 2..3 groups, n in 4..15, mostly with
+   tier, drawn from a seeded pool, 80% preferring datasets on which the constraint binds), nu in {None, .2, .02, 1e-4} (+ 24 cases with nu = 0); datasets: k in 2..3 (quick) / 2..5 (thorough) feature values, 2..3 groups, n in 4..15, mostly with
    feature correlated to the group (so that the constraint binds), group x label cells may be empty, single-member groups, duplicated rows;
    containers ndarray / DataFrame+Series / DataFrame+lists, group labels ints or strings in non-sorted order.
 NOT checked: heuristic learners, control features, sample weights (fit has none), the value of the automatic nu, predict() sampling (C10),
@@ -110,7 +110,9 @@ def _cases(seed, kmax, per_cfg, pool_size):
             out.append(ds + (mi, bi, eps, max_iter, lp, eta0, NUS[int(rng.integers(0, len(NUS)))], int(rng.integers(0, 3)), bool(rng.integers(0, 2))))
     # heavy configurations (max_iter 50/20) are spread over the worker chunks
     order = np.random.default_rng(seed + 1).permutation(len(out))
-    return EDGE + [out[i] for i in order]
+    # a requested nu of exactly 0 (use the whole budget): 24 of the cases without the LP step, re-run with nu = 0.0 and max_iter 20
+    zero_nu = [c[:7] + (20,) + c[8:10] + (0.0,) + c[11:] for c in out if not c[8]][:24]
+    return EDGE + zero_nu + [out[i] for i in order]
 
 
 def _lp_opt(errs, gams, b):
